@@ -133,8 +133,8 @@ Print Assumptions c05_optional_dep_mismatch.
 
 (* the repaired defect D13 as an example: int `optional=b,range=[1:5]` <- {"v":7,"b":1} is rejected, 3 is accepted *)
 Example c05_optional_dep_range_example :
-  let t := Struct [mkfield "v" (mkopts true None [] (Some (mkrange (Some 1) true (Some 5) true)) false (Some (false, "b"))) false (Prim (KInt W64));
-                   mkfield "b" (mkopts true None [] None false None) false (Prim (KInt W64))]%string in
+  let t := Struct [mkfield "v" (mkopts true None [] (Some (mkrange (Some 1) true (Some 5) true)) false (Some (false, "b")) false) false (Prim (KInt W64));
+                   mkfield "b" (mkopts true None [] None false None false) false (Prim (KInt W64))]%string in
   (exists e, unmarshal 6 t (JObj [("v", JNum "7" (mkfi true true true)); ("b", JNum "1" (mkfi true true true))]%string) = Err e) /\
   unmarshal 6 t (JObj [("v", JNum "3" (mkfi true true true)); ("b", JNum "1" (mkfi true true true))]%string) = Ok (VStruct [VInt 3; VInt 1]) /\
   unmarshal 6 t (JObj []) = Ok (VStruct [VInt 0; VInt 0]) /\
@@ -167,8 +167,8 @@ Print Assumptions c05_range_enforced.
 (* outside those domains the clause is FALSE of the code (replayed on Go; KNOWN_FINDINGS classes
    options_range_unenforced_{duration,slice_elem,map_elem,default}): Duration, slice and map fields and default=
    values are accepted although they lie outside options= / range= -- and the property (agrees) rejects each *)
-Definition o_opt12 := mkopts false None ["1s"; "2s"]%string None false None.
-Definition o_rng15 := mkopts false None [] (Some (mkrange (Some 1) true (Some 5) true)) false None.
+Definition o_opt12 := mkopts false None ["1s"; "2s"]%string None false None false.
+Definition o_rng15 := mkopts false None [] (Some (mkrange (Some 1) true (Some 5) true)) false None false.
 Definition one_field (o : fopts) (t : ty) := Struct [mkfield "v" o false t].
 Theorem c05_options_range_unenforced :
   (* time.Duration `options=1s|2s` <- "3s" *)
@@ -184,13 +184,13 @@ Theorem c05_options_range_unenforced :
   unmarshal 6 (one_field o_rng15 (Map (Prim (KInt W64)))) (JObj [("v", JObj [("k", JNum "7" (mkfi true true true))])]%string)
     = Ok (VStruct [VMap [("k"%string, VInt 7)]]) /\
   (* int `default=7,range=[1:5]` <- {} *)
-  unmarshal 6 (one_field (mkopts false (Some "7"%string) [] (Some (mkrange (Some 1) true (Some 5) true)) false None) (Prim (KInt W64))) (JObj [])
+  unmarshal 6 (one_field (mkopts false (Some "7"%string) [] (Some (mkrange (Some 1) true (Some 5) true)) false None false) (Prim (KInt W64))) (JObj [])
     = Ok (VStruct [VInt 7]) /\
   agrees (one_field o_opt12 (Prim KDur)) (JObj [("v", JStr "3s" None)]%string) (VStruct [VInt 3000000000]) = false /\
   agrees (one_field o_rng15 (Slice (Prim (KInt W64)))) (JObj [("v", JArr [JNum "7" (mkfi true true true)])]%string) (VStruct [VSlice [VInt 7]]) = false /\
   agrees (one_field o_rng15 (Map (Prim (KInt W64)))) (JObj [("v", JObj [("k", JNum "7" (mkfi true true true))])]%string)
          (VStruct [VMap [("k"%string, VInt 7)]]) = false /\
-  agrees (one_field (mkopts false (Some "7"%string) [] (Some (mkrange (Some 1) true (Some 5) true)) false None) (Prim (KInt W64))) (JObj [])
+  agrees (one_field (mkopts false (Some "7"%string) [] (Some (mkrange (Some 1) true (Some 5) true)) false None false) (Prim (KInt W64))) (JObj [])
          (VStruct [VInt 7]) = false.
 Proof. vm_compute. repeat split. Qed.
 Print Assumptions c05_options_range_unenforced.
@@ -206,7 +206,7 @@ Print Assumptions c05_json_yaml_agree.
 Theorem c05_yaml_null_refuted : exists t,
   unmarshal (fuel_of t) t (yaml_to_json (YMap [("v"%string, YNull)])) <> unmarshal (fuel_of t) t (JObj [("v"%string, JNull)]).
 Proof.
-  exists (Struct [mkfield "v" (mkopts true None [] None false None) false (Ptr (Prim (KInt W64)))]). vm_compute. discriminate.
+  exists (Struct [mkfield "v" (mkopts true None [] None false None false) false (Ptr (Prim (KInt W64)))]). vm_compute. discriminate.
 Qed.
 Print Assumptions c05_yaml_null_refuted.
 
@@ -357,10 +357,10 @@ Proof. intros n t W. split; intro p; apply never_panics; exact W. Qed.
 Print Assumptions c05_parse_total.
 
 Example c05_form_blank_example :
-  let t := Struct [mkfield "q" (mkopts false (Some "dflt") [] None true None) false (Prim KStr)]%string in
+  let t := Struct [mkfield "q" (mkopts false (Some "dflt") [] None true None false) false (Prim KStr)]%string in
   unmarshal 4 t (form_doc [("q", [JStr " " None])]%string) = Ok (VStruct [VStr " "]) /\
   unmarshal 4 t (form_doc [("q", [JStr "" None])]%string) = Ok (VStruct [VStr "dflt"]) /\
-  unmarshal 4 (Struct [mkfield "X-A" (mkopts true None [] None false None) false (Slice (Prim KStr))]%string)
+  unmarshal 4 (Struct [mkfield "X-A" (mkopts true None [] None false None false) false (Slice (Prim KStr))]%string)
             (header_doc [("X-A", Some [])]%string) = Ok (VStruct [VSlice []]).
 Proof. vm_compute. repeat split. Qed.
 
@@ -393,6 +393,66 @@ Example c05_yaml_int_edges :
    unmarshal 4 t (yaml_to_json (YMap [("v", YInt 9223372036854775807)]%string)) = Ok (VStruct [VInt 9223372036854775807])).
 Proof. vm_compute. split; [reflexivity|]. split; [eexists; reflexivity | reflexivity]. Qed.
 
+(* options= are matched EXACTLY (String.eqb): a value is accepted only if it IS one of the declared options -- another
+   letter case, surrounding blanks, a prefix or a superstring are different strings -- on every route: number tokens by
+   their text, strings, bools, `,string` / form / path / header values (from_string), and environment values (env=) *)
+Theorem c05_options_exact :
+  (forall o s, in_options o s = true <-> (o_options o = [] \/ In s (o_options o))) /\
+  (forall t o raw fi w, json_number t o raw fi = Ok w -> in_options o raw = true) /\
+  (forall t o s pj w, from_string t o (JStr s pj) = Ok w -> in_options o s = true) /\
+  (forall t o ev v, env_value t o ev = Ok v -> in_options o ev = true).
+Proof.
+  split; [exact in_options_exact|]. split; [|split; [|exact env_value_options]].
+  - intros t o raw fi w H. unfold json_number in H. destruct (negb (range_ok_tok o raw fi)); [discriminate|].
+    destruct (in_options o raw); [reflexivity | discriminate].
+  - intros t o s pj w H. unfold from_string in H. destruct (deref t); try discriminate.
+    destruct (in_options o s); [reflexivity | discriminate].
+Qed.
+Print Assumptions c05_options_exact.
+
+Example c05_options_case_examples :
+  let o := mkopts false None ["dev"; "test"; "prod"]%string None false None false in
+  map (in_options o) ["dev"; "DEV"; "Prod"; " dev"; "dev "; "de"; "devel"; "prod"; ""]%string
+  = [true; false; false; false; false; false; false; true; false].
+Proof. vm_compute. reflexivity. Qed.
+
+(* INHERIT, as HEAD behaves (pinned): an `inherit` member is looked up in its own object, then in the enclosing objects
+   (nearest first).  Present as a non-object: the child's value.  Absent: the nearest enclosing value.  Present as an
+   object in the child AND in an enclosing object: the nested sections are MERGED -- the child's entries win, the
+   enclosing section's entries for the keys the child lacks are added.  (So a key the child's nested section leaves out
+   takes the parent's nested value before any default / zero / required rule applies.) *)
+Theorem c05_inherit :
+  (forall k m anc v, olookup k m = Some v -> (forall vm, v <> JObj vm) -> inh_lookup k (m :: anc) = Some v) /\
+  (forall k m anc, olookup k m = None -> inh_lookup k (m :: anc) = inh_lookup k anc) /\
+  (forall k m anc vm pm, olookup k m = Some (JObj vm) -> inh_lookup k anc = Some (JObj pm) ->
+     exists merged, inh_lookup k (m :: anc) = Some (JObj merged) /\
+       forall key, olookup key merged = match olookup key vm with Some x => Some x | None => olookup key pm end) /\
+  (forall k m anc vm, olookup k m = Some (JObj vm) -> (forall pm, inh_lookup k anc <> Some (JObj pm)) ->
+     inh_lookup k (m :: anc) = Some (JObj vm)).
+Proof.
+  split; [|split; [|split; [exact inh_merge_lookup|]]].
+  - intros k m anc v H N. simpl. rewrite H. destruct v; try reflexivity. exfalso. eapply N. reflexivity.
+  - intros k m anc H. simpl. rewrite H. reflexivity.
+  - intros k m anc vm H N. simpl. rewrite H. destruct (inh_lookup k anc) as [[]|] eqn:E; try reflexivity. exfalso. eapply N. reflexivity.
+Qed.
+Print Assumptions c05_inherit.
+
+(* parent tls={cert,key,min}, child rpc.tls={cert}: the child's section is merged with the parent's *)
+Example c05_inherit_nested_example :
+  let tls := Struct [mkfield "cert" no_opts false (Prim KStr);
+                     mkfield "key" (mkopts true None [] None false None false) false (Prim KStr);
+                     mkfield "min" (mkopts false (Some "12") [] None false None false) false (Prim (KInt W64))]%string in
+  let inh := mkopts false None [] None false None true in
+  let t := Struct [mkfield "tls" no_opts false tls;
+                   mkfield "rpc" no_opts false (Struct [mkfield "tls" inh false tls])]%string in
+  let fi := mkfi true true true in
+  unmarshal_inh (fuel_of t) t (JObj [("tls", JObj [("cert", JStr "pc" None); ("key", JStr "pk" None); ("min", JNum "13" fi)]);
+                                     ("rpc", JObj [("tls", JObj [("cert", JStr "cc" None)])])]%string)
+  = Ok (VStruct [VStruct [VStr "pc"; VStr "pk"; VInt 13]; VStruct [VStruct [VStr "cc"; VStr "pk"; VInt 13]]]) /\
+  unmarshal_inh (fuel_of t) t (JObj [("tls", JObj [("cert", JStr "pc" None)]); ("rpc", JObj [])]%string)
+  = Ok (VStruct [VStruct [VStr "pc"; VStr ""; VInt 12]; VStruct [VStruct [VStr "pc"; VStr ""; VInt 12]]]).
+Proof. vm_compute. split; reflexivity. Qed.
+
 (* ---------------- non-vacuity *)
 Example c05_keys_example :
   to_camel_case "user_name" = "userName"%string /\ to_camel_case "UserName" = "userName"%string /\
@@ -401,8 +461,8 @@ Proof. vm_compute. repeat split. Qed.
 
 Definition ex_ty : ty := Struct [
   mkfield "i8" no_opts false (Prim (KInt W8));
-  mkfield "n" (mkopts false (Some "5"%string) [] (Some (mkrange (Some 1) true (Some 9) true)) false None) false (Prim (KInt W64));
-  mkfield "p" (mkopts true None [] None false None) false (Ptr (Prim KStr));
+  mkfield "n" (mkopts false (Some "5"%string) [] (Some (mkrange (Some 1) true (Some 9) true)) false None false) false (Prim (KInt W64));
+  mkfield "p" (mkopts true None [] None false None false) false (Ptr (Prim KStr));
   mkfield "s" no_opts false (Slice (Struct [mkfield "d" no_opts false (Prim KDur)]))].
 Definition fi0 := mkfi true true true.
 
